@@ -3,7 +3,7 @@
 (* with the loader verdict predicted by the model to gen_configs.json.          *)
 EXTENDS MC_C04
 ASSUME DoExport
-GInit == /\ cfg = 0 /\ fname = 0 /\ txdir = 0 /\ b = 0 /\ sdir = 0 /\ stack = 0 /\ exec = 0 /\ steps = 0
-         /\ sc = 0 /\ phase = 0 /\ outcome = 0
+GInit == /\ cfg = 0 /\ order = 0 /\ bs = 0 /\ txdir = 0 /\ sdir = 0 /\ pos = 0 /\ gpos = 0 /\ stack = 0 /\ exec = 0 /\ steps = 0
+         /\ sc = 0 /\ scn = 0 /\ scpos = 0 /\ phase = 0 /\ outcome = 0
 GNext == UNCHANGED vars
 =============================================================================
